@@ -176,7 +176,8 @@ CLAIMED = {
              'none or by several makes the call fail (assign_centres_unique / assign_centres_fails, invariant over the pattern list); before the remaps '
              'the count of a group name is the number of atoms contributing it; a correction descriptor is counted once per distinct atom set '
              '(cover + pairwise distinct); remaps act as a linear substitution on dictionaries with unique keys for chain-free tables; the only failure is the pattern-match '
-             'error and it happens exactly when centre assignment fails, dictionary counting is addition on the named entry. The model Graph/Scheme.v '
+             'error and it happens exactly when centre assignment fails, dictionary counting is addition on the named entry; all clauses in one statement: '
+             'C02_decomposition_spec (what a successful call returns, name by name). The model Graph/Scheme.v '
              'is the independent interpreter of the scheme file; its agreement with GetDescriptors on generated molecules of every scheme is '
              'decided by the correspondence on every run.',
         design='5 / C02',
